@@ -149,8 +149,9 @@ class Bag(Factory, Container):
 
     @inheritdoc(Container)
     def __iadd__(self, other):
-        self.entries = other.entries
-        self.values = other.values
+        both = self + other
+        self.entries = both.entries
+        self.values = both.values
         return self
 
     @inheritdoc(Container)
